@@ -140,3 +140,17 @@ func init() {
 	verifFuncs["verifOr"] = func(fr *frame, a []value) value { return Or(a[0].(*Term), a[1].(*Term)) }
 	verifFuncs["verifAnd"] = func(fr *frame, a []value) value { return And(a[0].(*Term), a[1].(*Term)) }
 }
+
+func init() {
+	// verifStepLimit(n): from now on the path must finish within n more interpreter steps; otherwise it is
+	// reported as a hang (busy loop). n <= 0 switches the limit off.
+	verifFuncs["verifStepLimit"] = func(fr *frame, a []value) value {
+		n := int(concInt(a[0], true))
+		if n <= 0 {
+			E.hangLimit = 0
+		} else {
+			E.hangLimit = E.steps + n
+		}
+		return nil
+	}
+}
